@@ -408,6 +408,94 @@ func runC16Handshake(c *Ctx) {
 		r.Sample(map[string]interface{}{"part": "hsreader", "case": recs[len(recs)/2].cs})
 	}
 	hsPublicAPIHostile(c)
+	hsSlowTrickle(c)
+}
+
+// hsSlowTrickle: the listed finding C16/handshake-trickle-holds-acceptor, replayed on every run. A client that
+// sends a valid header announcing a long message and then one byte shortly before each read deadline keeps
+// readMessage (1 s deadline, re-armed per Read) busy; on a live node the accept loop is serial, so nobody else can
+// connect to that acceptor meanwhile. Timing is generous: the verdict is "still busy after more than three
+// timeouts", which cannot be caused by a slow machine (a slow machine makes the deadline fire, i.e. hides the finding).
+func hsSlowTrickle(c *Ctx) {
+	r := c.R
+	reg := &memReg{routes: map[gen.Atom][]gen.Route{}}
+	y, yport, err := startNetNode(reg, nodeSpec{cookie: "trickle"})
+	if err != nil {
+		r.Count("hsreader.trickle.inconclusive")
+		return
+	}
+	defer y.StopForce()
+	x, _, err := startNetNode(reg, nodeSpec{cookie: "trickle"})
+	if err != nil {
+		r.Count("hsreader.trickle.inconclusive")
+		return
+	}
+	defer x.StopForce()
+	conn, err := net.Dial("tcp4", fmt.Sprintf("127.0.0.1:%d", yport))
+	if err != nil {
+		r.Count("hsreader.trickle.inconclusive")
+		return
+	}
+	defer conn.Close()
+	hdr := []byte{87, 1, 0, 0, 0xea, 0x60} // announces 60000 bytes
+	start := time.Now()
+	stop := make(chan struct{})
+	closedEarly := make(chan struct{})
+	go func() {
+		conn.Write(hdr)
+		for i := 0; ; i++ {
+			select {
+			case <-stop:
+				return
+			case <-time.After(400 * time.Millisecond):
+			}
+			if _, err := conn.Write([]byte{byte(i)}); err != nil {
+				close(closedEarly)
+				return
+			}
+		}
+	}()
+	// meanwhile an honest node tries to connect to the same acceptor
+	time.Sleep(300 * time.Millisecond)
+	yInfo, _ := y.Network().Info()
+	route := gen.NetworkRoute{Route: gen.Route{Host: "localhost", Port: yport, HandshakeVersion: yInfo.HandshakeVersion, ProtoVersion: yInfo.ProtoVersion}}
+	_, errDuring := x.Network().GetNodeWithRoute(y.Name(), route)
+	// is the trickler still being served after more than three read timeouts?
+	held := false
+	select {
+	case <-closedEarly:
+	case <-time.After(time.Until(start.Add(3500 * time.Millisecond))):
+		one := []byte{0}
+		if _, err := conn.Write(one); err == nil {
+			conn.SetReadDeadline(time.Now().Add(50 * time.Millisecond))
+			_, rerr := conn.Read(one)
+			ne, isNet := rerr.(net.Error)
+			held = isNet && ne.Timeout() // not closed by the node
+		}
+	}
+	heldFor := time.Since(start)
+	close(stop)
+	conn.Close()
+	// once the trickler is gone the honest node gets through
+	var errAfter error
+	for i := 0; i < 5; i++ {
+		var rn gen.RemoteNode
+		rn, errAfter = x.Network().GetNodeWithRoute(y.Name(), route)
+		if errAfter == nil {
+			rn.Disconnect()
+			break
+		}
+		time.Sleep(300 * time.Millisecond)
+	}
+	r.Case("hsreader-trickle", true)
+	r.Count(fmt.Sprintf("hsreader.trickle.held-%v.honest-blocked-%v.honest-after-%v", held, errDuring != nil, errAfter == nil))
+	if held {
+		what := fmt.Sprintf("a client sending one byte every 400 ms after a header announcing 60000 bytes was still being served by the acceptor after %.1f s (read timeout 1 s, re-armed per read; bound: 65542 timeouts)", heldFor.Seconds())
+		if errDuring != nil && errAfter == nil {
+			what += fmt.Sprintf("; meanwhile an honest node could not connect to that acceptor (%v) and connected at once after the client left", errDuring)
+		}
+		r.Violation("C16/handshake-trickle-holds-acceptor", what, map[string]interface{}{"header": hexs(hdr), "interval_ms": 400})
+	}
 }
 
 type decoded struct {
